@@ -12,4 +12,10 @@ def bc (α : Type) [Sc α] [Codec α] (args : List (String × String)) : String 
     s!"{showList Codec.shw v} {showBool (checkBounds per refl u)} {showBool (checkBounds per refl v)}"
   | _, _, _ => "bad-op"
 
+def handle (cmd : String) (args : List (String × String)) : Option String :=
+  match cmd with
+  | "bc.F" => some (bc Float args)
+  | "bc.Q" => some (bc Rat args)
+  | _ => none
+
 end Drv.C16
